@@ -3,6 +3,7 @@ package hdr
 import (
 	"fmt"
 	"math/big"
+	"regexp"
 	"strings"
 
 	"verifharness/common"
@@ -11,6 +12,8 @@ import (
 )
 
 const prodPruneDepth = 10000
+
+var hexRe = regexp.MustCompile(`[0-9a-f]{16,}`)
 
 func (e *Engine) live() []*Inst {
 	var out []*Inst
@@ -58,6 +61,9 @@ func (e *Engine) Clean(d int) {
 				fmt.Sprintf("Clean failed: panic=%q err=%v", pan, err))
 			e.fail("C01", "maintenance-completes", "clean-fails/"+errKind(pan, err),
 				fmt.Sprintf("Clean failed: panic=%q err=%v", pan, err))
+			if len(in.M.Invalid) > 0 {
+				e.fail("C17", "marking-survives-save-load", "clean-fails-after-marking/"+errKind(pan, err), fmt.Sprintf("Clean failed after invalid marking: panic=%q err=%v", pan, err))
+			}
 			in.Tainted = true
 			continue
 		}
@@ -104,6 +110,7 @@ func errKind(pan string, err error) string {
 	if i := strings.Index(s, ":"); i > 0 {
 		s = s[:i]
 	}
+	s = hexRe.ReplaceAllString(s, "<hash>")
 	return strings.ReplaceAll(strings.TrimSpace(s), " ", "-")
 }
 
@@ -133,6 +140,9 @@ func (e *Engine) saveOne(in *Inst, enumerate bool) bool {
 			fmt.Sprintf("Save failed: panic=%q err=%v", pan, err))
 		e.fail("C01", "maintenance-completes", "save-fails/"+errKind(pan, err),
 			fmt.Sprintf("Save failed: panic=%q err=%v", pan, err))
+		if len(in.M.Invalid) > 0 {
+			e.fail("C17", "marking-survives-save-load", "save-fails-after-marking/"+errKind(pan, err), fmt.Sprintf("Save failed after invalid marking: panic=%q err=%v", pan, err))
+		}
 		in.Tainted = true
 		return false
 	}
